@@ -31,9 +31,11 @@ impl<A> ArcForceTx<A> { pub uninterp spec fn chan(&self) -> int; pub uninterp sp
     #[verifier::external_body] pub fn clone(&self) -> (r: Self) ensures r.chan() == self.chan() { unimplemented!() }
     #[verifier::external_body] pub fn downgrade(&self) -> (r: WeakForceTx<A>) ensures r.chan() == self.chan() { unimplemented!() } }
 impl<A> WeakTx<A> { pub uninterp spec fn chan(&self) -> int;
+    #[verifier::external_body] pub fn strong_count(&self) -> (r: usize) { unimplemented!() }
     #[verifier::external_body] pub fn clone(&self) -> (r: Self) ensures r.chan() == self.chan() { unimplemented!() }
     #[verifier::external_body] pub fn upgrade(&self) -> (r: Option<ArcTx<A>>) ensures r is Some ==> r->0.chan() == self.chan() { unimplemented!() } }
 impl<A> WeakForceTx<A> { pub uninterp spec fn chan(&self) -> int;
+    #[verifier::external_body] pub fn strong_count(&self) -> (r: usize) { unimplemented!() }
     #[verifier::external_body] pub fn clone(&self) -> (r: Self) ensures r.chan() == self.chan() { unimplemented!() }
     #[verifier::external_body] pub fn upgrade(&self) -> (r: Option<ArcForceTx<A>>) ensures r is Some ==> r->0.chan() == self.chan() { unimplemented!() } }
 impl<A> OwnView for ArcTx<A> { open spec fn own(&self) -> Own { Own { none: false, chan: self.chan(), s_tx: true, s_force: false, w_tx: false, w_force: false, mixed: false } } }
